@@ -1781,7 +1781,7 @@ func (a *Authenticator) setupStreamEncryption(negotiation *SecurityNegotiation) 
 			// If ECDH fails, log but don't fail the entire handshake
 			// This allows tests with placeholder keys to work
 			slog.Debug(fmt.Sprintf("⚠️  CRYPTO: ECDH key exchange failed (continuing without encryption): %v", err), "destination", "cedar")
-			return nil
+			return a.finishWithoutEncryption(negotiation)
 		}
 
 		slog.Debug("🔐 CRYPTO: ECDH successful, deriving AES key...", "destination", "cedar")
@@ -1824,6 +1824,22 @@ func (a *Authenticator) setupStreamEncryption(negotiation *SecurityNegotiation) 
 	// Freeze it now so the application phase -- e.g. a large collector query stream --
 	// skips the per-frame SHA256. Idempotent on an already-frozen (resumed) session.
 	a.stream.FinalizeDigests()
+	return a.finishWithoutEncryption(negotiation)
+}
+
+// finishWithoutEncryption is the common exit of setupStreamEncryption when no
+// session key could be installed (the peer sent no, or an unusable, ECDH key, or
+// there is no common cipher). A plaintext session is acceptable only if local
+// policy does not require encryption or integrity; and the reported outcome must
+// say what the stream really does, not what was hoped for during negotiation.
+func (a *Authenticator) finishWithoutEncryption(negotiation *SecurityNegotiation) error {
+	if a.stream.IsEncrypted() {
+		return nil
+	}
+	if a.config != nil && (a.config.Encryption == SecurityRequired || a.config.Integrity == SecurityRequired) {
+		return fmt.Errorf("local policy requires encryption/integrity but no session key could be established with the peer")
+	}
+	negotiation.Encryption = false
 	return nil
 }
 
